@@ -65,6 +65,13 @@ PROPS = {
         "trusted": ["os/exec passes argv unchanged and never involves a shell (generated fact: exec.Command(command[0], command[1:]...))"],
         "assumptions": ["the hook is non-empty (Config.Safe, C19)"],
     },
+    "C15": {
+        "groups": [{"name": "render", "quick": 2500, "thorough": 60000}],
+        "rule": "documents from grammars of HTML (inline styles, links, media, blockquotes, lists, headings, pre, hr, unknown tags, character-reference injections), Markdown, gemtext and plain text with URLs x sequences of 1..4 widths (with repeats and returns to earlier widths; -3..250); the same Markup value is rendered at each width in order; "
+                "non-trivial = the document has links or is rendered at more than one width; distinct by op content",
+        "trusted": ["x/net/html and goldmark (the model renders the forest the real parser produced, shipped with the op; theorems quantify over all forests)", LIBS["regexp"], LIBS["unicode"]],
+        "assumptions": ["width >= 1 for the width clause"],
+    },
     "C16": {
         "groups": [{"name": "C16", "quick": 6000, "thorough": 200000}],
         "rule": "prefix/centered/suffix of 0..8 styled lines each x heights 1..16; non-trivial = height exceeds the centred text (buffers are computed); distinct by op content",
@@ -118,6 +125,12 @@ MANIFEST_TEXT = {
         "design_ref": "DESIGN.md §5 C20",
         "note": "Trusted: Lean kernel; correspondence check (testing); os/exec argv passing.",
         "technique": "Lean 4 proof (list induction) + differential correspondence through a recording hook program",
+    },
+    "C15": {
+        "text": "Lean theorems for every forest / line list / string and every width >= 1: no rendered line exceeds the width (the final whole-document Wrap, via wrap_width, followed by trims that only remove characters); the cached text always equals the pure renderer at the cached width, so after any sequence of widths Render(w) returns R(tree, w). Tied to hypertext/gemtext/plaintext/markdown by differential correspondence on the forests the real parsers produce and on width sequences; width and same-width-same-text predicates are evaluated on every implementation output.",
+        "design_ref": "DESIGN.md §5 C15",
+        "note": "Trusted: Lean kernel; correspondence check (testing); x/net/html, goldmark; the regexes of gemtext/plaintext as modelled.",
+        "technique": "Lean 4 proof (wrap_width + cache invariant by induction over the width sequence) + differential correspondence",
     },
     "C16": {
         "text": "Lean theorems for all prefix/centred/suffix texts and all heights >= 1: CenterVertically returns exactly h lines, centred as specified; ReplaceLastLine keeps the height for texts of >= 2 lines; SetLength is newline-free. Tied to ansi.go by differential correspondence; the height predicate is evaluated on every implementation output.",
